@@ -22,7 +22,7 @@ ASSUMPTIONS = [
 MANIFEST = {'text': 'structural necessary conditions for window delivery: the filtered index is never consulted for a stream without active filters, a window change resets both ranges consistently and renews the id, '
                     'and the sender advances its sent-range exactly to the end of what it sent.'
                     ' Added: search paging continuation equals the loop counter advanced exactly once per examined element; the index builder marks as processed exactly what it filtered; time lookups use partition_point with a strict predicate, binary_search only on unique keys. Added: lookups return the position found by the search primitive unmodified (no clamp / min / arithmetic), also through position helpers. Added: every field of a binary message sent derives from the message at that stream position only (no field of a previously built output message). Added: chunked search paging continues behind the last reported match.',
-            'technique': 'static analysis: who-may-read + dominating-guard (control dependence) check, store pairing, must-pass-through on the CFG Added: filters_active takes into account every filter kind that match_filters decides on.'}
+            'technique': 'static analysis: who-may-read + dominating-guard (control dependence) check, store pairing, must-pass-through on the CFG Added: filters_active takes into account every filter kind that match_filters decides on. Added: the index builder stores offset + the enumerate() position over the whole slice it was handed (no chunking / skipping adapter in between).'}
 
 SC = 'adlt::utils::remote_utils::StreamContext'
 
@@ -141,6 +141,8 @@ def run(F, chk):
     check_bin_msg_fields(F, G16)
     G8 = chk.rule('G8', 'index builder: the processed marker advances exactly to the end of what was filtered')
     check_builder_progress(F, G8)
+    G18 = chk.rule('G18', 'index builder: the position stored for a matching message is `offset + i` with i the enumerate() position of that message in the whole slice handed in together with the offset (no chunking / skipping adapter between the slice and enumerate)')
+    check_stored_index(F, G18)
     G17 = chk.rule('G17', 'a stream counts as filtered (filters_active) whenever any filter kind that match_filters decides on is present: the kinds read by StreamContext::from cover the kinds read by match_filters')
     import c12
     c12.check_active_shortcut(F, G17)      # shared with C12 G10
@@ -589,6 +591,111 @@ def range_loop_form(b, cfg, E, E2, loops):
 
 # ---------------------------------------------------------------------------------------------
 # G8: the index builder marks as processed exactly what it filtered
+
+def check_stored_index(F, G18):
+    """filtered_msgs[k] must be the position (in all_msgs) of the k-th matching message.  The matcher gets a slice and the position of
+    its first element; the position of an element is offset + its index in that slice.  An index taken relative to a chunk, a
+    skipped prefix or a reordered iteration is a position of another message: window, search and lookups then work on a
+    corrupted index although counts and progress markers look right."""
+    b = F.get('adlt::utils::remote_utils::process_stream_new_msgs')
+    if b is None:
+        G18.violation(('anchor-lost', 'process_stream_new_msgs'), 'index builder not found')
+        return
+    G18.fn(b.path)
+    matchers = [c for c in F.closures_of(b.path) if c.ret_type().startswith('std::vec::Vec<usize') and any(t.startswith('&[adlt::dlt::DltMessage]') for t in c.arg_types())]
+    if not matchers:
+        # the matching may be a private fn
+        matchers = [x for x in F.order if x.crate == 'lib' and x.kind != 'closure' and x.path.startswith('adlt::utils::remote_utils::') and x.ret_type().startswith('std::vec::Vec<usize') and any(t.startswith('&[adlt::dlt::DltMessage]') for t in x.arg_types())
+                    and any(blk.term.callee.path == x.path for blk in b.calls())]
+    # a matcher that only forwards (`|chunk, off| collect_matching_idxs(filters, chunk, off)`): the forwarded-to function is the matcher
+    fwd = []
+    for mt in matchers:
+        tgt = None
+        if not any(blk.term.callee.path.endswith('::enumerate') for blk in mt.calls()):
+            for blk in mt.calls():
+                H = F.get(blk.term.callee.resolved) if blk.term.callee.resolved else F.get(blk.term.callee.path)
+                if H is not None and H.kind != 'closure' and H.crate == 'lib' and H.ret_type().startswith('std::vec::Vec<usize') and any(t.startswith('&[adlt::dlt::DltMessage]') for t in H.arg_types()) \
+                        and blk.term.dest.is_local and blk.term.dest.l == 0:
+                    # slice and offset must be handed on unchanged
+                    mcfg = CFG(mt)
+                    ok_args = True
+                    for a, ty in zip(blk.term.args, H.arg_types()):
+                        if ty.startswith('&[adlt::dlt::DltMessage]') or ty == 'usize':
+                            o = mcfg.origin_of_operand(a) if a.place is not None else None
+                            if o is None or o.l > mt.arg_count or any(e['k'] != 'deref' for e in o.p):
+                                ok_args = False
+                    if ok_args:
+                        tgt = H
+        fwd.append(tgt or mt)
+    matchers = fwd
+    G18.floor('matcher (slice of messages, offset) -> Vec<usize> of the index builder', len(matchers), 1)
+    SRC = re.compile(r'::(par_iter|iter|into_par_iter|into_iter)$')
+    OKADAPT = re.compile(r'::(enumerate|filter|map|filter_map|collect|collect_into_vec|copied|cloned|by_ref)$')
+    for mt in matchers:
+        G18.fn(mt.path)
+        cfg = CFG(mt)
+        E = ExprBuilder(cfg, fold_named=True)
+        slice_params = [i for i, t in enumerate(mt.arg_types(), start=1) if t.startswith('&[adlt::dlt::DltMessage]')]
+        usize_params = [mt.name_of(i) or 'arg%d' % i for i, t in enumerate(mt.arg_types(), start=1) if t == 'usize']
+        G18.sites += 1
+        # (a) the adapter chain: source over the slice parameter itself, then only order/position preserving adapters up to enumerate
+        chain = [blk for blk in mt.calls() if 'Iterator' in blk.term.callee.path or 'rayon' in (blk.term.args[0].ty if blk.term.args else '') or SRC.search(blk.term.callee.path)]
+        names = [blk.term.callee.path.split('::')[-1] for blk in mt.calls()]
+        bad = [n_ for n_ in names if re.match(r'^(par_chunks|chunks|par_chunks_exact|chunks_exact|skip|skip_while|step_by|rev|zip|take|take_while|windows|par_windows|split_at|flat_map|flat_map_iter|chain|interleave|fold|par_bridge|rchunks|par_rchunks)$', n_)]
+        en = [blk for blk in mt.calls() if blk.term.callee.path.endswith('::enumerate')]
+        src_ok = False
+        for blk in en:
+            a0 = blk.term.args[0]
+            pl = cfg.origin_of_operand(a0) if a0.place is not None else None
+            sd = cfg.single_def(pl.l) if pl is not None and not pl.p else None
+            if sd is not None and sd[1] == 'call' and SRC.search(sd[2].callee.path) and sd[2].args and sd[2].args[0].place is not None:
+                o2 = cfg.origin_of_operand(sd[2].args[0])
+                if o2 is not None and o2.l in slice_params and all(e['k'] == 'deref' for e in o2.p):
+                    src_ok = True
+        # (b) the producing closure returns offset + position
+        prod_ok = False
+        nested = [c for c in F.closures_of(b.path) if c.path.startswith(mt.path + '::')] or [c for c in F.order if c.kind == 'closure' and c.path.startswith(mt.path + '::')]
+        for c2 in nested:
+            rt = c2.ret_type()
+            if not (rt == 'usize' or rt.startswith('std::option::Option<usize')):
+                continue
+            c2cfg = CFG(c2)
+            E2 = ExprBuilder(c2cfg, fold_named=True)
+            vals = []
+            for blk in c2.blocks:
+                if blk.cleanup:
+                    continue
+                for s_ in blk.stmts:
+                    if s_.k == 'assign' and s_.place.is_local and s_.place.l == 0 and not s_.place.p:
+                        e = E2.rvalue(s_.rv)
+                        if isinstance(e, tuple) and e[0] == 'agg' and e[1].endswith('Option::Some') and e[2]:
+                            e = e[2][0]
+                        if isinstance(e, tuple) and e[0] == 'agg' and e[1].endswith('Option::None'):
+                            continue
+                        vals.append(e)
+            def is_off(x):
+                return re.search(r'(^|[.(*])(%s)\)*$' % '|'.join(re.escape(u) for u in usize_params), show(x)) is not None
+
+            def is_pos(x):
+                sx = show(x)
+                # .0 of the enumerated pair, or a captured copy of it (`.then(|| offset + pos)`): anything that is not the offset and not a constant
+                return not is_off(x) and not (isinstance(x, tuple) and x[0] == 'const')
+            if vals and all(isinstance(e, tuple) and e[0] == 'bin' and e[1] == 'Add' and ((is_off(e[2]) and is_pos(e[3])) or (is_off(e[3]) and is_pos(e[2]))) for e in vals):
+                prod_ok = True
+        if bad or not src_ok or not prod_ok or len(en) != 1:
+            why = []
+            if bad:
+                why.append('the slice goes through %s before the positions are taken' % '/'.join(sorted(set(bad))))
+            if len(en) != 1:
+                why.append('%d enumerate() calls' % len(en))
+            elif not src_ok:
+                why.append('enumerate() is not applied to an iterator over the whole slice parameter')
+            if not prod_ok:
+                why.append('no closure returns `offset + .0 of the enumerated pair`')
+            G18.violation(('stored-index-not-offset-plus-position', mt.path), 'the index builder %s: %s - the stored index is not known to be the position of the matching message (offset + its index in the slice)' % (mt.path, '; '.join(why)), where=mt.loc(None))
+        else:
+            G18.ok(sample={'matcher': mt.path, 'stored': 'offset + enumerate() position over the whole slice', 'adapters': names})
+
 
 def check_builder_progress(F, G8):
     """Under filters_active every store to all_msgs_last_processed_len must be
